@@ -571,7 +571,7 @@ def counter_truth(ctx):
         ctx.anchor_missing('counting pass-through wrappers')
 
 
-@rule('TAIL-FORWARD', ['C07'], floor=2)
+@rule('TAIL-FORWARD', ['C07', 'C11'], floor=2)
 def tail_forward(ctx):
     """A transforming writer whose transform reports how many bytes it could process (block filters
     stop short of an instruction that may straddle the end of the buffer) forwards only the processed
